@@ -56,12 +56,14 @@ func WorkerMain(t Target) {
 	shrinkBudget := fs.Int("shrink", 150, "")
 	evlog := fs.Bool("eventlog", false, "")
 	retries := fs.Int("retries", 1, "replay: executions to try before concluding")
+	isolate := fs.Bool("isolate", false, "run: execute every build in a process of its own (survives a dying build)")
 	sameProc := fs.Bool("same-process", false, "replay: run all builds in this process instead of one process each")
 	_ = fs.Parse(os.Args[2:])
 	Tier = *tier
 	defer CleanupBase()
 	switch mode {
 	case "run":
+		Isolate = *isolate
 		os.Exit(runBatch(t, *prop, *seed, *from, *to, *out, *maxS, *shrinkBudget, *evlog))
 	case "replay":
 		Isolate = !*sameProc
